@@ -47,6 +47,16 @@ def gen_eps(rng, lossless=None):
     return (np.complex128(z) if k == 3 else z), z, "lossy"
 
 
+def round_cases():
+    """'round' inputs (simple fractions and small integers): the points where an intermediate quantity of a closed form is exactly zero"""
+    out = []
+    for f in (0.0, 1 / 6, 0.25, 1 / 3, 0.5, 0.6, 2 / 3, 0.75, 1.0):
+        for e0 in (1.0, 2.0, 3.0, 1.5, complex(1, 0.2)):
+            for eps in (1.0, 2.0, 3.0, 5.0, complex(3, 1), complex(2, 0.2)):
+                out.append((f, complex(e0), complex(eps)))
+    return out
+
+
 def gen_f(rng):
     r = rng.random()
     if r < 0.08:
@@ -126,6 +136,14 @@ def correspond(ctx):
                f"pvs {SHAPE_TOK[shape]} 0 {f2t(f)} {ct(az)} {ct(bz)}", out_c(lambda: fn(f, a, b, **kw)), TOLC,
                desc={"f": f, "e0": az, "eps": bz, "shape": shape})
         co.note(f"pvs {shape} e0:{ka} eps:{kb}" + (" f=0" if f == 0 else " f=1" if f == 1 else ""))
+    rc = round_cases()
+    for i in range(ctx.n(60, len(rc))):
+        f, az, bz = rc[(i * 7) % len(rc)]
+        shape = ["spheres", "random_needles"][i % 2]
+        co.add("pvs." + ("needles" if shape == "random_needles" else "spheres") + ".round",
+               f"pvs {SHAPE_TOK[shape]} 0 {f2t(f)} {ct(az)} {ct(bz)}", out_c(lambda: m.polder_van_santen(f, az, bz, inclusion_shape=shape)), TOLC,
+               desc={"f": f, "e0": az, "eps": bz, "shape": shape})
+        co.note(f"pvs {shape} round inputs")
     # error paths
     for i in range(ctx.n(24, 120)):
         f = gen_f(rng)
@@ -420,6 +438,7 @@ def oracle(ctx, hints, effort):
             cases.append((d["f"], complex(d["e0"]), complex(d["eps"])))
     for _ in range(n):
         cases.append((gen_f(rng), gen_eps(rng)[1], gen_eps(rng)[1]))
+    cases += round_cases()
     for f, e0, eps in cases:
         for shape in ("spheres", "random_needles"):
             inp = {"kind": "pvs", "f": f, "e0": [e0.real, e0.imag], "eps": [eps.real, eps.imag], "shape": shape}
